@@ -229,10 +229,12 @@ func (e *GError) Is(err error) bool {
 	return false
 }
 
-// isConvertedFrom reports whether converted (an error recorded by Convert) is err. Errors of a
-// non-comparable dynamic type never match (comparing them would panic).
+// isConvertedFrom reports whether converted (an error recorded by Convert) is err. Errors that
+// are not comparable never match (comparing them would panic). The value is asked, not its
+// type: a struct or array type with an interface-typed field is a comparable type although a
+// value holding a slice or map in that field is not.
 func isConvertedFrom(converted, err error) bool {
-	return converted != nil && reflect.TypeOf(converted).Comparable() && converted == err
+	return converted != nil && reflect.ValueOf(converted).Comparable() && converted == err
 }
 
 func (e *GError) _embededGError() *GError {
